@@ -289,5 +289,55 @@ add_big("fragmented/DINT[130]@500-just-over", 130, 500, None, 4)
 add_big("fragmented/DINT[1100]@4000", 1100, 4000, None, 4, tier="thorough", timeout=900)
 add_big("fragmented/DINT[300]@500/target-cap-odd", 300, 500, 250, 8, tier="thorough", timeout=900)
 
+
+# ---- deeper shapes (added in the second pass): deeper shapes
+add("struct/UA[i].arr[j]", ["UA"], 2, lambda xs: [(f"UA[{xs[0]}].arr[{xs[1]}]", "UA", ("one", 0xC3, 16 * xs[0] + 6 + 2 * xs[1], None, "INT"))],
+    idx_pre=lambda xs: 0 <= xs[0] < 2 and 0 <= xs[1] < 2, tier="quick", timeout=600)
+add("struct/O1.inner.arr[j]+O1.inner.b1", ["O1"], 1, lambda xs: [(f"O1.inner.arr[{xs[0]}]", "O1", ("one", 0xC3, 6 + 2 * xs[0], None, "INT")),
+                                                                   ("O1.inner.b1", "O1", ("one", 0xC1, 4, 1, "BOOL")), ("O1.s", "O1", ("one", 0xC2, 16, None, "SINT"))],
+    idx_pre=lambda xs: 0 <= xs[0] < 2, tier="quick", timeout=600)
+add("multi/six-requests", ["D1", "I1", "DA", "U1"], 1, lambda xs: [("D1", "D1", ("one", 0xC4, 0, None, "DINT")), ("I1", "I1", ("one", 0xC3, 0, None, "INT")),
+                                                                      (f"DA[{xs[0]}]", "DA", ("one", 0xC4, 4 * xs[0], None, "DINT")), ("U1.a", "U1", ("one", 0xC4, 0, None, "DINT")),
+                                                                      ("DA{4}", "DA", ("list", 0xC4, 0, 4, "DINT[4]")), ("D1", "D1", ("one", 0xC4, 0, None, "DINT"))],
+    idx_pre=lambda xs: 0 <= xs[0] < 4, tier="quick", timeout=900)
+
+
+def add_big_struct(id, n_elems, cs, tier="quick", timeout=1500):
+    """UDT1[n] larger than the connection: fragmented read of an array of structures; symbolic member bytes in the elements around each fragment boundary"""
+    from vlib.ref.logix import Symbol
+
+    def body(xs, m):
+        try:
+            total = 16 * n_elems
+            mem = [0] * total
+            for e in range(n_elems):
+                mem[16 * e:16 * e + 16] = [(e + 1) % 256, 0, 0, 0, e % 4, 0, e % 256, 0, (2 * e) % 256, 0, 0, 0, 0, 0, 0x80, 0x3F]
+            spots = sorted({0, n_elems - 1} | {min(n_elems - 1, (k * (cs - 8)) // 16 + dj) for k in range(1, total // (cs - 8) + 2) for dj in (-1, 0)})[:4]
+            for j, sp in enumerate(spots):
+                mem[16 * sp:16 * sp + 4] = list(m[8 * j:8 * j + 4])          # member a
+                mem[16 * sp + 6:16 * sp + 10] = list(m[8 * j + 4:8 * j + 8])  # member arr
+            target = scen.std_project()
+            big = Symbol("BIGU", 44, T1, (n_elems,), mem=mem)
+            target.symbols.append(big)
+            tags = dict(TAGS)
+            from pycomm3.cip.data_types import Array
+            tags["BIGU"] = dict(TAGS["UA"], tag_name="BIGU", instance_id=44, dimensions=[n_elems, 0, 0], type_class=Array(n_elems, TAGS["U1"]["type_class"]))
+            d = scen.make_driver(target, cs=cs, tags=tags)
+            tg = d.read(f"BIGU{{{n_elems}}}")
+            v = check_tag(tg, "BIGU", ("list", T1, 0, n_elems, f"UDT1[{n_elems}]"), big.mem)
+            if v != "ok":
+                return v
+            if target.violations:
+                return "protocol:" + target.violations[0]
+            return "ok" if any(e[1] == 0x52 for e in target.log) else "not-fragmented"
+        except Exception as e:
+            return "exc:" + type(e).__name__ + ":" + str(e)[:80]
+
+    REG.add(id, vec_fn(0, body, extra=(("m", bytes),)), pre=vec_pre(0, lambda xs, m: len(m) == 32, extra=(("m", bytes),)), tier=tier, timeout=timeout, funcs=F,
+            desc=f"UDT1[{n_elems}] ({16 * n_elems} bytes) at connection size {cs}: fragmented read of an array of structures, members a and arr of 4 boundary elements symbolic")
+
+
+add_big_struct("fragmented/UDT1[70]@500", 70, 500)
+
 from harness import bits_common
 bits_common.add_bitarray_obligations(REG, "C01")
